@@ -56,6 +56,23 @@ func main() {
 		}
 		return
 	}
+	if strings.HasPrefix(*dump, "ssa:") {
+		abs, _ := filepath.Abs(*repo)
+		ctx, err := lint.Load(abs, "", lint.ModulePath, 11)
+		if err != nil {
+			fmt.Println(err)
+			os.Exit(2)
+		}
+		for _, l := range ctx.Inlined {
+			fmt.Println("inlined:", l)
+		}
+		for _, fn := range ctx.ModFuncs {
+			if strings.Contains(fn.String(), strings.TrimPrefix(*dump, "ssa:")) {
+				fn.WriteTo(os.Stdout)
+			}
+		}
+		return
+	}
 	if *dump == "slots" {
 		abs, _ := filepath.Abs(*repo)
 		ctx, err := lint.Load(abs, "", lint.ModulePath, 11)
